@@ -95,6 +95,45 @@ def _unit_case(rec, case):
                        f"the unvaried one", where=fe.where, instance=f"({n},{m}),{m0},{scheme},{running}", how="differential PE + PIT")
 
 
+def shortcut_rule(chk, src, rule="shortcut-never-drops-the-expanded-factor"):
+    """Operator.compute takes the identity shortcut only where the operator IS the identity (shared with C53: anywhere else the
+    operator jumps to the identity inside the tolerance window of the comparison)."""
+    # (3b) the identity shortcut of Operator.compute: in the expanded scheme the last (non-threshold) operator is K(a, ln xif2) . E;
+    # from NLO on K != 1, so the shortcut may never be taken there - also when the COUPLING distance vanishes (xif2 mu_to^2 = mu_from^2),
+    # which makes E = 1 but not K.  In every other regime it may be taken only for coinciding scales.
+    from .c01 import _make_operator
+    from ..pe import PERaise
+
+    fcomp = src.func(f"{OP}.compute")
+    n_short = 0
+    for order in ((2, 0), (4, 0), (2, 1)):
+        pes = PE(src)
+        integrated = []
+        pes.overrides[f"{OP}.integrate"] = lambda pe_, a, k, integrated=integrated: integrated.append(1)
+        for scheme in ("unvaried", "exponentiated", "expanded"):
+            for xif2 in ((Fraction(1),) if scheme == "unvaried" else (Fraction(2), Fraction(1, 2))):
+                for thr in (False, True):
+                    for q_to in (Fraction(100), Fraction(100) / xif2, Fraction(100) * xif2, Fraction(400)):
+                        inst = f"order={order},scheme={scheme},xif2={xif2},threshold={thr},mu2_from=100,mu2_to={q_to}"
+                        o = _make_operator(pes, src, order, 4, scheme, xif2, thr)
+                        o.attrs["q2_to"] = q_to
+                        del integrated[:]
+                        try:
+                            pes.apply(pes.getattr(o, "compute"), [], {})
+                        except PERaise as e:
+                            chk.fail(rule, fcomp.qname, f"compute raises {e} ({inst})", where=fcomp.where, instance=inst)
+                            continue
+                        n_short += 1
+                        factor = scheme == "expanded" and xif2 != 1 and not thr
+                        may_skip = q_to == 100 and not factor
+                        chk.decide(bool(integrated) or may_skip, rule, fcomp.qname,
+                                   f"{inst}: compute returns the identity without integrating, but the operator is "
+                                   + ("K(a_s, ln xif2) times the evolution between the couplings, and K != 1 from NLO on whatever the coupling distance"
+                                      if factor else "the evolution between two different scales") + " - the varied and the central operator then differ at "
+                                   "relative O(a_s), not beyond the working order", where=fcomp.where, instance=inst, how="exhaustive PE of Operator.compute")
+    chk.floor("shortcut instances", n_short, 100)
+
+
 def run(chk):
     src, pe = qk.make_pe()
     M, SV = qk.enums(pe)
@@ -240,40 +279,7 @@ def run(chk):
     pe2 = PE(src)
     n_tab = mu2_table(chk, src, pe2)
     chk.floor("mu2 table rows", n_tab, 6)
-    # (3b) the identity shortcut of Operator.compute: in the expanded scheme the last (non-threshold) operator is K(a, ln xif2) . E;
-    # from NLO on K != 1, so the shortcut may never be taken there - also when the COUPLING distance vanishes (xif2 mu_to^2 = mu_from^2),
-    # which makes E = 1 but not K.  In every other regime it may be taken only for coinciding scales.
-    from .c01 import _make_operator
-    from ..pe import PERaise
-
-    fcomp = src.func(f"{OP}.compute")
-    n_short = 0
-    for order in ((2, 0), (4, 0), (2, 1)):
-        pes = PE(src)
-        integrated = []
-        pes.overrides[f"{OP}.integrate"] = lambda pe_, a, k, integrated=integrated: integrated.append(1)
-        for scheme in ("unvaried", "exponentiated", "expanded"):
-            for xif2 in ((Fraction(1),) if scheme == "unvaried" else (Fraction(2), Fraction(1, 2))):
-                for thr in (False, True):
-                    for q_to in (Fraction(100), Fraction(100) / xif2, Fraction(100) * xif2, Fraction(400)):
-                        inst = f"order={order},scheme={scheme},xif2={xif2},threshold={thr},mu2_from=100,mu2_to={q_to}"
-                        o = _make_operator(pes, src, order, 4, scheme, xif2, thr)
-                        o.attrs["q2_to"] = q_to
-                        del integrated[:]
-                        try:
-                            pes.apply(pes.getattr(o, "compute"), [], {})
-                        except PERaise as e:
-                            chk.fail("shortcut-never-drops-the-expanded-factor", fcomp.qname, f"compute raises {e} ({inst})", where=fcomp.where, instance=inst)
-                            continue
-                        n_short += 1
-                        factor = scheme == "expanded" and xif2 != 1 and not thr
-                        may_skip = q_to == 100 and not factor
-                        chk.decide(bool(integrated) or may_skip, "shortcut-never-drops-the-expanded-factor", fcomp.qname,
-                                   f"{inst}: compute returns the identity without integrating, but the operator is "
-                                   + ("K(a_s, ln xif2) times the evolution between the couplings, and K != 1 from NLO on whatever the coupling distance"
-                                      if factor else "the evolution between two different scales") + " - the varied and the central operator then differ at "
-                                   "relative O(a_s), not beyond the working order", where=fcomp.where, instance=inst, how="exhaustive PE of Operator.compute")
-    chk.floor("shortcut instances", n_short, 100)
+    shortcut_rule(chk, src)
     fc = src.func("eko.runner.commons.couplings")
     # evaluated with a recording Couplings class for the three schemes: the matching ratios handed to the couplings are the squared
     # ratios of the card, times xif^2 in the exponentiated scheme only
